@@ -7,6 +7,11 @@ Reflected from the imported classes of the tree under check (never from literals
   Attribute.Flag.* bit and mask constants; the pseudo attribute codes INTERNAL_TREAT_AS_WITHDRAW /
   INTERNAL_DISCARD; AS path segment type codes; AS_TRANS; the EOR prefix and the two EOR lengths;
   Family.size (next-hop lengths and route distinguisher size per family).
+Probed by execution on two fixed inputs (the outcome must be one of the whitelisted behaviours):
+  EXTNH_PER_FAMILY  MPRNLRI.unpack_attribute on a session with the RFC 8950 capability for ipv4 unicast only:
+                    an IPv6 unicast MP_REACH_NLRI with a 4-octet next hop is accepted (false: the legal lengths are
+                    looked up under the AFI the length suggests, for every family) or refused 3/0 (true: IPv6 next
+                    hops are added for the negotiated <AFI, SAFI> only); ipv4 unicast with 16 octets must be accepted.
 Fail closed: a registration key that is not (ID, FLAG | EXTENDED_LENGTH), a class whose registered id
 differs from its ID, a non-boolean behaviour flag, a registered code whose value decoder is not in
 MODELLED (hand-modelled in Model_Update.unpack_value) or OPAQUE (decoder abstracted, outcome supplied
@@ -85,6 +90,37 @@ def table(repo=None):
     if optional != sorted(a for a, r in rows.items() if r['flag'] & 0x80):
         raise Untranslatable('attributes_optional is not the set of registered codes with the OPTIONAL bit')
     return [rows[a] for a in sorted(rows)]
+
+
+def _probe_extnh():
+    from exabgp.bgp.message.notification import Notify
+    from exabgp.bgp.message.update.attribute.mprnlri import MPRNLRI
+    from exabgp.protocol.family import AFI, SAFI
+
+    class Neg:
+        families = [(AFI.ipv4, SAFI.unicast), (AFI.ipv6, SAFI.unicast)]
+        nexthop = [(AFI.ipv4, SAFI.unicast, AFI.ipv6)]
+
+        def required(self, afi, safi):
+            return False
+
+    def run(afi, nh, nlri):
+        data = bytes([0, afi, 1, len(nh)]) + nh + b'\0' + nlri
+        try:
+            MPRNLRI.unpack_attribute(data, Neg())
+            return 'accept'
+        except Notify as e:
+            return (int(e.code), int(e.subcode))
+
+    v6 = bytes([0x20, 1, 0x0D, 0xB8] + [0] * 11 + [1])
+    if run(1, v6, bytes([24, 10, 0, 0])) != 'accept':
+        raise Untranslatable('probe: ipv4 unicast with a negotiated IPv6 next hop is not accepted')
+    r = run(2, bytes([10, 0, 0, 1]), bytes([32, 0x20, 1, 0x0D, 0xB8]))
+    if r == 'accept':
+        return False
+    if r == (3, 0):
+        return True
+    raise Untranslatable(f'probe: unexpected outcome {r} for an IPv6 unicast MP_REACH_NLRI with a 4-octet next hop')
 
 
 def main(repo, gen_dir):
@@ -168,5 +204,8 @@ def main(repo, gen_dir):
         ls = '; '.join(str(_int(int(x), 'nh len')) for x in lens)
         L.append(f'  if (afi =? {int(afi)}) && (safi =? {int(safi)}) then Some ([{ls}], {_int(int(rd), "rd")}) else')
     L.append('  None.')
+    L.append('')
+    L.append('(* probed: RFC 8950 next hop lengths added per negotiated <AFI, SAFI> (true) or looked up by length for every family (false) *)')
+    L.append(f'Definition EXTNH_PER_FAMILY : bool := {"true" if _probe_extnh() else "false"}.')
     L.append('')
     write_if_changed(os.path.join(gen_dir, 'Gen_AttrTable.v'), '\n'.join(L) + '\n')
